@@ -354,7 +354,14 @@ class HierarchyElement(DiagLayer):
         for obj in local_objects:
             result_dict[obj.short_name] = (obj, self)
 
-        return [x[0] for x in result_dict.values()]
+        result = [x[0] for x in result_dict.values()]
+
+        # if several locally defined objects share a short name, keep
+        # all of them so that short name references to it are detected
+        # as ambiguous instead of being silently bound to the last one
+        result.extend(obj for obj in local_objects if result_dict[obj.short_name][0] is not obj)
+
+        return result
 
     def _compute_available_diag_comms(self, odxlinks: OdxLinkDatabase) -> Iterable[DiagComm]:
 
